@@ -9,6 +9,7 @@ from sympy import Symbol, Integer
 from ..core import src, AnalysisError
 from .. import units as U
 from ..symx import SymExec, ITE, WhileShift, sym_equal, make_args, Undecided, alg_equal
+from ..symx import canon_rel, bool_atoms, collect_ites, consistent, resolve_ite
 from ..kernels import SPLINE_HANDLERS, S1, FEQ, h_scalar1
 from .. import agree
 
@@ -17,7 +18,11 @@ MODES = {"fEq": "equilibrium distribution at (r, foot)", "null": "zero", "period
 
 
 def kernel_mode(chk, mod, code):
-    fn = mod.func(GEN)
+    from .C05 import structured
+    # early exits of the loop over the feet (`...; continue`) are read in their if/else form
+    fn, why = structured(mod.func(GEN))
+    if why:
+        raise Undecided(why)
     args = make_args(fn, funcs={"eval_spline_1d_scalar": h_scalar1}, overrides={"bound": Integer(code)})
     ex = SymExec(fn, args, calls=dict(SPLINE_HANDLERS))
     ex.run()
@@ -40,6 +45,63 @@ def spec_mode(name, args, i):
         v2 = WhileShift(v1, Integer(3), args["vMax"], -w)
         return S1(v2, 0, *fam)
     raise AnalysisError(name)
+
+
+def _ws_entry(W, inner=None):
+    """the condition under which the shift loop that produced W runs at least once"""
+    v, kind, bound, _ = W.args
+    v = inner if inner is not None else v
+    return {1: sp.Lt, 2: sp.Le, 3: sp.Gt, 4: sp.Ge}[int(kind)](v, bound)
+
+
+def _ws_core(e):
+    while isinstance(e, WhileShift):
+        e = e.args[0]
+    return e
+
+
+def _ws_simplify(e, val):
+    """`while v < b: v += w` leaves v unchanged when v < b is false on entry: under the truth assignment `val` every shift loop
+    whose entry condition is assigned False is the identity (innermost first)"""
+    if not isinstance(e, sp.Basic) or not e.has(WhileShift):
+        return e
+    if not e.args:
+        return e
+    args = [_ws_simplify(a, val) for a in e.args]
+    e2 = e.func(*args)
+    if isinstance(e2, WhileShift):
+        k, c, n = canon_rel(_ws_entry(e2))
+        if (k, c) in val and (val[(k, c)] != n) is False:
+            return e2.args[0]
+    return e2
+
+
+def sym_equal_ws(a, b, max_atoms=10):
+    """symx.sym_equal with one more fact: a shift loop not entered returns its argument.  The entry conditions of the shift loops
+    (on the unshifted value) join the case split."""
+    import itertools
+    atoms, ites = set(), []
+    collect_ites(a, ites)
+    collect_ites(b, ites)
+    for i in ites:
+        bool_atoms(i.args[0], atoms)
+    if not ites:
+        return sym_equal(a, b, max_atoms)
+    for e in (a, b):
+        for W in e.atoms(WhileShift):
+            bool_atoms(_ws_entry(W, _ws_core(W)), atoms)
+    atoms = sorted(atoms, key=str)
+    if len(atoms) > max_atoms:
+        raise Undecided(f"{len(atoms)} atomic conditions")
+    for bits in itertools.product([False, True], repeat=len(atoms)):
+        val = dict(zip(atoms, bits))
+        if not consistent(val):
+            continue
+        ra, rb = _ws_simplify(resolve_ite(a, val), val), _ws_simplify(resolve_ite(b, val), val)
+        if not alg_equal(ra, rb):
+            w = {f"{k}:{e}": v for (k, e), v in val.items()}
+            return False, {"case": w, "code": str(ra)[:300], "spec": str(rb)[:300]}
+    return True, None
 
 
 def edge_codes(chk):
@@ -83,7 +145,9 @@ def run(chk):
     chk.explanation = (
         "Engine F: for each boundary mode the kernel's assignment to f[i] is extracted and compared with "
         "ITE(foot outside [vMin,vMax], fill, S(foot)) (fill = f_eq(r of the line, foot) / 0) or, for the periodic mode, "
-        "S(foot shifted by whole periods until inside); the feet handed to the kernel normalise to v_node - c*dt; "
+        "S(foot shifted by whole periods until inside) - early exits (`continue`) are read in their if/else form and a shift loop that "
+        "is not entered is the identity; the feet handed to the kernel normalise to v_node - c*dt; the row of the gradient table read "
+        "by gridStepKeepGradient is written by gridStep in every iteration over the radii; "
         "producer/consumer agreement of the mode codes; dispatch and argument roles; the interpolant is recomputed from "
         "the current nodal values before evaluation; index-space typing of the grid-level loops (advection speed and "
         "radius of the line (i,j,k) being advanced). Interpolation accuracy is not decided.")
@@ -109,10 +173,27 @@ def run(chk):
         try:
             got, args, i = kernel_mode(chk, kmod, table[name])
             spec = spec_mode(name, args, i)
-            okm, wit = sym_equal(got, spec)
+            okm, wit = sym_equal_ws(got, spec)
+            why = f"kernel branch for code {table[name]} does not implement mode '{name}': {wit}"
+            if not okm and spec.has(WhileShift) and not got.has(WhileShift):
+                # the periodic image is computed by a closed form instead of the two shift loops
+                if got.has(sp.Function("toint")):
+                    why = (f"the periodic image of a foot outside [vMin, vMax] is computed with int(), which truncates towards zero, where the "
+                           f"number of periods to shift is a floor/ceiling: in the case {wit['case']} the kernel evaluates {wit['code']}, i.e. a "
+                           "foot on one side of the domain is shifted by one period too few (or not at all) and the spline is evaluated outside "
+                           "[vMin, vMax]")
+                elif any(a.func == S1 and alg_equal(a.args[0], args["vMin"] + sp.Function("mod")(args["vPts"].fn(i) - args["vMin"], args["vMax"] - args["vMin"]))
+                         for a in got.atoms(sp.Function)):
+                    why = ("the periodic image is computed as vMin + (v - vMin) % (vMax - vMin), which folds the feet into the half-open interval "
+                           "[vMin, vMax): a foot lying exactly on vMax (zero displacement at the last node, or vMax plus whole periods) is moved "
+                           "to vMin, whereas shifting by whole periods until inside leaves it on vMax; the spline in v is clamped, not periodic, "
+                           "so the two values differ")
+                elif got.has(sp.floor) or got.has(sp.ceiling) or got.has(sp.Function("mod")):
+                    okm = None
+                    why = (f"the periodic image is computed by the closed form {str(got)[:160]} instead of shift loops: equivalence with "
+                           "'shift by whole periods until inside (vMin, vMax]' is outside the algebra of this rule")
             chk.ob("F2-boundary-rule", fnk, f"mode '{name}' (code {table[name]}): f[i] = ...", okm,
-                   f"feet outside the domain take the {what}; inside, the interpolant at the foot" if okm else
-                   f"kernel branch for code {table[name]} does not implement mode '{name}': {wit}", file=U.ADVK, func=GEN,
+                   f"feet outside the domain take the {what}; inside, the interpolant at the foot" if okm else why, file=U.ADVK, func=GEN,
                    facts={"code": str(got)[:300], "spec": str(spec)[:300]})
         except Undecided as e:
             chk.ob("F2-boundary-rule", fnk, f"mode '{name}'", None, f"outside the extractable fragment: {e}", file=U.ADVK, func=GEN)
